@@ -24,6 +24,9 @@ CHECKS = {
          'Counts after an AtLeastOnce restart are not judged.', '§5 C15'),
 }
 CHECKS.update({
+ 'C04': ('E2', 'fault_enumeration', 'fault injection over generated workloads (H1 I/O seam: every I/O event of every append/batch fails with an errno or completes short) plus model-based histories with operations the engine must reject; FIFO model in which a failed call never happened',
+         'Rejected operations (2001 entries, >10 GiB, >1 GiB entry, empty batch, over-long topic names) inside generated histories with restarts; and for generated workloads, every I/O event of every append / batch append (block write, io_uring SQE, submit, flush, file create/set_len/fsync, dir fsync - the latter reached by histories that first allocate 96..99 blocks) is made to fail or complete short, after which all later reads, appends, a drain, a fresh-process reopen and a second drain must agree with the model in which the failed call never happened.',
+         'An injected fault stands for an I/O error reported by the kernel. Visibility of a successful batch to concurrent readers is checked by C05.', '§5 C04'),
  'C02': ('E1', 'exploration', 'metamorphic + model-based property testing (peek/consume pairs, erasure differential of non-consuming reads incl. reclamation bookkeeping via H3, content oracle for offset reads)',
          'Three relations on every generated history: each peek equals the immediately following consuming read; the same history with every peek and offset-addressed read erased must give identical consuming results, counts, WAL file count and per-file reclamation counters after a full drain; every element of an offset-addressed read is an appended payload of that topic (first element may be a suffix) in append order.',
          'H3 (cfg walrus_verif) exposes the per-file counters read-only. File names are wall-clock based, so tracker views are compared as multisets.', '§5 C02'),
@@ -84,7 +87,7 @@ m = {
  },
  'engines': [
    {'name': 'E1', 'path': 'harness/src/{absop,interp,model}.rs', 'serves_properties': ['C01','C02','C03','C06','C14','C15','C16','C17'], 'kind_free_text': 'sequential model-based search: proptest-generated abstract histories, interpreted against a FIFO reference model, executed in child processes on the real engine'},
-   {'name': 'E2', 'path': 'harness/src/props/crash.rs', 'serves_properties': ['C07','C08','C09'], 'kind_free_text': 'crash-point enumeration: E1 workloads traced through the H1 I/O seam, re-executed with the process terminated at each selected event, recovered in a fresh process and judged against the acknowledged history'},
+   {'name': 'E2', 'path': 'harness/src/props/crash.rs', 'serves_properties': ['C04','C07','C08','C09'], 'kind_free_text': 'crash-point enumeration: E1 workloads traced through the H1 I/O seam, re-executed with the process terminated at each selected event, recovered in a fresh process and judged against the acknowledged history'},
  ],
  'checks': checks,
  'not_applicable': na,
